@@ -123,6 +123,8 @@ def _run(ctx):
                    _consts((0, 3), (0,), 2, 2, both, 3, (), True)),
                   ("one corruption: 1-2 msgs, sizes 2/5, <=2 segments, flags all-or-nothing",
                    _consts((0, 3), (0,), 1, 2, both, 2, regs, False)),
+                  ("one corruption: 2 msgs, sizes 2/5, <=3 segments, plain codec",
+                   _consts((0, 3), (), 2, 2, ("plain",), 3, regs, False)),
                   ("no corruption: 3 tiny msgs, two of them sharing a segment",
                    _consts((0,), (0,), 3, 3, both, 2, (), False))]
     else:
